@@ -54,6 +54,14 @@ func genC20(t *rapid.T) *CaseC20 {
 	for i := rapid.IntRange(0, 6).Draw(t, "nfl"); i > 0; i-- {
 		c.Fl = append(c.Fl, F64(rapid.OneOf(rapid.Float64Range(-1e9, 1e9), rapid.SampledFrom([]float64{0, math.Copysign(0, -1), -1, 1, math.Inf(1), math.Inf(-1), -1e-300})).Draw(t, "fl")))
 	}
+	if rapid.IntRange(0, 3).Draw(t, "bigInts") == 0 {
+		// large magnitudes close to each other (beyond 2^53: not representable as float64)
+		base := rapid.SampledFrom([]int64{1 << 53, -(1 << 53), 1 << 62, math.MaxInt64 - 8, math.MinInt64 + 8, 1700000000000000000, -(1 << 60)}).Draw(t, "bigBase")
+		c.A = nil
+		for i := rapid.IntRange(1, 6).Draw(t, "nBig"); i > 0; i-- {
+			c.A = append(c.A, base+rapid.Int64Range(-8, 8).Draw(t, "bigDelta"))
+		}
+	}
 	c.Target = small.Draw(t, "target")
 	// shift: |shift| < 63 and no overflow
 	c.Shift = rapid.Int64Range(-62, 62).Draw(t, "shift")
@@ -144,6 +152,12 @@ func classifyC20(c *CaseC20) (bool, []string) {
 	}
 	if c.Index < 0 && c.Shift < 0 {
 		cl = append(cl, "negative-index-right-shift")
+	}
+	for _, a := range c.A {
+		if a > 1<<53 || a < -(1<<53) {
+			cl = append(cl, "ints-beyond-2^53")
+			break
+		}
 	}
 	if len(c.A) == 0 || len(c.Fl) == 0 {
 		cl = append(cl, "empty-slice")
@@ -270,6 +284,31 @@ func checkC20(c *CaseC20, fl *Fails) {
 		}
 		if !inMx || !inMn {
 			fl.Add("maxmin", "Max(%v)=%d / Min=%d is not an element", c.A, mx, mn)
+		}
+	}
+	{
+		// other instantiations of the generic helpers: int, int32, float32
+		var is []int
+		var i32 []int32
+		var f32 []float32
+		for _, v := range c.A {
+			is = append(is, int(v))
+			i32 = append(i32, int32(v%(1<<31)))
+			f32 = append(f32, float32(v%(1<<20))/8)
+		}
+		if len(is) > 0 {
+			mi, _ := common.Max(is)
+			ni, _ := common.Min(is)
+			m32, _ := common.Max(i32)
+			n32, _ := common.Min(i32)
+			mf, _ := common.Max(f32)
+			nf, _ := common.Min(f32)
+			for k := range is {
+				if is[k] > mi || is[k] < ni || i32[k] > m32 || i32[k] < n32 || f32[k] > mf || f32[k] < nf {
+					fl.Add("maxmin", "Max/Min over int/int32/float32 views of %v do not bound element %d (int %d..%d, int32 %d..%d, float32 %v..%v)", c.A, k, ni, mi, n32, m32, nf, mf)
+					break
+				}
+			}
 		}
 	}
 	fs := make([]float64, len(c.Fl))
